@@ -46,7 +46,7 @@ func (e *env[E, P, D, T]) sizes() []sizeSpec {
 	th := e.c.Thorough()
 	switch e.mode {
 	case "main":
-		for lg := 0; lg <= e.c.Pick(12, 16); lg++ {
+		for lg := 0; lg <= e.c.Pick(11, 16); lg++ {
 			add(lg, false)
 		}
 		if th {
@@ -57,6 +57,7 @@ func (e *env[E, P, D, T]) sizes() []sizeSpec {
 				add(e.k, true) // the largest domain of the field (koalabear: 2^24; bw6-633: 2^20 is in the list above)
 			}
 		} else {
+			add(12, true)
 			add(13, true)
 			add(14, true)
 		}
@@ -69,8 +70,11 @@ func (e *env[E, P, D, T]) sizes() []sizeSpec {
 			add(lg, true)
 		}
 	case "sched":
-		for _, lg := range []int{2, 5, 6, 7, 8, 9, 11, 13} {
+		for _, lg := range []int{2, 5, 6, 7, 8, 9, 11} {
 			add(lg, true)
+		}
+		if gomaxprocs > 1 || th {
+			add(13, true)
 		}
 		if th {
 			add(12, true)
@@ -146,10 +150,12 @@ func (e *env[E, P, D, T]) vectors(rng *gen.Rng, sz sizeSpec) []vecT[T] {
 	case sz.light:
 		dense("random#0", "dense", true, func(int) T { return e.rnd(rng) })
 		if n > 1 {
-			dense("all(q-1)", "extreme", false, func(int) T { return qm1 })
 			lam := e.rndNonZero(rng)
 			basis(1, lam, e.hx(lam), false)
-			basis(n-1, A.One(), "1", false)
+			if e.mode != "race" || e.c.Thorough() {
+				dense("all(q-1)", "extreme", false, func(int) T { return qm1 })
+				basis(n-1, A.One(), "1", false)
+			}
 		}
 	case n <= allBasisUpTo:
 		for j := 0; j < n; j++ {
